@@ -17,4 +17,4 @@ for c in reg.all:
     bad = [r for r in res if r.verdict != 'proved']
     print('%-55s obl %4d paths %4d q %5d notproved %3d  %.2fs' % (c.name, len(res), stats['paths'], stats['queries'], len(bad), time.time() - t0))
     for r in bad[:show]:
-        print('    ', r.verdict, r.name, '--', r.detail, (str(r.model)[:300] if r.model else ''))
+        print('    ', r.verdict, r.name, '--', r.detail, (str(r.model)[:120] if r.model else ''))
